@@ -282,6 +282,35 @@ func cmdCheck(args []string) {
 			fmt.Printf("   obligation %s (%s) at %s: %s\n", f.q.Name, f.reason, f.q.Pos, f.q.Clause)
 		}
 	}
+	// thorough tier: the scenarios that demonstrated the repaired findings of this property are replayed against the
+	// real code (regression guard next to the proofs; a replay that fails again is a violation with a concrete input)
+	var regress []map[string]any
+	if *tier == "thorough" {
+		seenFam := map[string]bool{}
+		for _, k := range known {
+			if k.Status != "fixed" || k.Property != id || !strings.HasPrefix(k.Replay, "replay/families/") || seenFam[k.Replay] {
+				continue
+			}
+			seenFam[k.Replay] = true
+			cmd := exec.Command(filepath.Join(*root, k.Replay), *repo, k.Obligation, strconv.Itoa(seed))
+			cmd.Env = append(os.Environ(), "VERIF_ROOT="+*root)
+			t1 := time.Now()
+			b, err := cmd.CombinedOutput()
+			out := string(b)
+			if len(out) > 4000 {
+				out = out[len(out)-4000:]
+			}
+			failed := err != nil && strings.Contains(out, "FAILING-INPUT")
+			regress = append(regress, map[string]any{"family": k.Replay, "finding": k.Obligation, "failed": failed, "secs": round3(time.Since(t1).Seconds())})
+			if failed {
+				violations++
+				rp := filepath.Join(outDir, "regression_"+filepath.Base(k.Replay)+".json")
+				rb, _ := json.MarshalIndent(map[string]any{"property": id, "obligation": k.Obligation, "fixed_in": k.Commit, "what": k.What, "replay_family": k.Replay, "replay_output": out, "failing_input_found": true}, "", " ")
+				os.WriteFile(rp, rb, 0o644)
+				fmt.Printf("VIOLATION property=%s replay=%s\n", id, rp)
+			}
+		}
+	}
 	for _, ft := range faults {
 		fmt.Printf("ENGINE-FAULT %s\n", ft)
 	}
@@ -340,7 +369,7 @@ func cmdCheck(args []string) {
 				"per_backend": perSolver, "solver_seconds": round3(solverSecs),
 				"known_finding_obligations": knownHit, "bounded": pc.Bounded,
 				"samples": samples, "failed": len(fails) - len(knownHit), "engine_faults": faults,
-				"notes": pc.Notes,
+				"notes": pc.Notes, "regression_replays": regress,
 			},
 			"assumptions": assume, "wall_s": round3(time.Since(t0).Seconds()), "violations": violations,
 		}
